@@ -1589,6 +1589,32 @@ M('C10', 'original defect: calc_H_MPO states the range of the coupling terms onl
   "        if not edt.is_empty:\n            H_MPO.max_range = edt.max_range()  # exponentially decaying terms have infinite range\n", "",
   'RANGE-all-term-kinds')
 
+M('C14', 'single-site TDVP: left-moving update forgets to normalise S', 'tenpy/algorithms/tdvp.py',
+  "        renorm = npc.norm(S)\n        S /= renorm\n        self.psi.norm *= renorm\n        if i0 == 0:", "        renorm = npc.norm(S)\n        self.psi.norm *= renorm\n        if i0 == 0:",
+  'NORM-renorm-use')
+M('C14', 'twin: single-site TDVP normalises S by rebinding', 'tenpy/algorithms/tdvp.py',
+  "        renorm = npc.norm(S)\n        S /= renorm\n        self.psi.norm *= renorm\n        A0 =", "        renorm = npc.norm(S)\n        S = S / renorm\n        self.psi.norm *= renorm\n        A0 =",
+  None, expect='silent')
+
+M('C10', 'twin: _insert_connection rebuilds the merged connection field by field', 'tenpy/networks/terms.py',
+  "            self.connections[existing_counter] = new_connection[:3] + (updated_strength,)", "            self.connections[existing_counter] = (new_connection[0], new_connection[1], new_connection[2], updated_strength)",
+  None, expect='silent')
+M('C10', '_insert_connection compares two fields but takes over three', 'tenpy/networks/terms.py',
+  "            if self.connections[c][:3] == new_connection[:3] and c in counters_right:", "            if self.connections[c][:2] == new_connection[:2] and c in counters_right:",
+  'TERMS-merge-key')
+M('C09', 'twin: roll_mps_unit_cell reduces the indices with np.mod', 'tenpy/networks/mps.py',
+  "        valid_inds = inds % self.L\n", "        valid_inds = np.mod(inds, self.L)\n",
+  None, expect='silent')
+M('C09', 'roll_mps_unit_cell: sites and forms rolled with an independently computed index array', 'tenpy/networks/mps.py',
+  "        valid_inds = inds % self.L\n", "        valid_inds = np.roll(np.arange(self.L), shift)\n",
+  'REINDEX-congruent')
+M('C17', 'MultiSpeciesLattice.from_hdf5 re-derives pairs after the base loader restored them', 'tenpy/models/lattice.py',
+  "        obj.simple_Lu = hdf5_loader.load(subpath + 'simple_Lu')\n        return obj\n", "        obj.simple_Lu = hdf5_loader.load(subpath + 'simple_Lu')\n        obj.pairs = obj._generate_new_pairs()\n        return obj\n",
+  'HDF5-no-overwrite')
+M('C16', 'LanczosGroundState stores shifted-back Ritz values and run() removes the shift again', 'tenpy/linalg/krylov_based.py',
+  "        if self.E_shift is not None:\n            E0 = E0 - self.E_shift\n", "        if self.E_shift is not None:\n            E0 = E0 - self.E_shift\n            self.Es = self.Es - self.E_shift\n",
+  'KRYLOV-eshift')
+
 # ---------------------------------------------------------------- C16 / C19
 M('C16', 'GMRES restart: relative residual norm used for normalisation (round-3 seed b)', KRY,
   """        self.total_error.append([npc.norm(self.rs[-1]) / self.b_norm])
